@@ -126,7 +126,7 @@ PROPS = {
     },
     "C08": {
         "mc": ["dec_framing", "dec_ctllen", "dec_data", "dec_loop3", "dec_loop4", "session_q", "session_t"],
-        "gen": ["decode_seq", "suffix", "concat", "decode", "decode_big", "ignored"],
+        "gen": ["decode_seq", "suffix", "concat", "decode", "decode_big", "ignored", "many_avps"],
         "rule": "remaining length after every accepted decode; 1..4 messages back to back in one reader; (b, b++suffix) "
                 "pairs; AVP record concatenations against the records alone; TLC: SuffixIndependent on every accepted run, "
                 "BackToBack / AtBoundary on the session machine",
@@ -208,7 +208,7 @@ PROPS = {
         "assumptions": COMMON_ASSUMPTIONS + ["the harness itself prints nothing (panic hook silenced)"],
     },
     "C20": {
-        "mc": ["dec_kinds", "dec_avprec"], "gen": ["fault", "render"],
+        "mc": ["dec_kinds", "dec_avprec"], "gen": ["fault", "fault_sweep", "render"],
         "rule": "single-fault injection into valid messages for each pinned error identity (the specification first "
                 "confirms the base is valid and the fault single); Display of every variant, for AVP-carrying variants "
                 "over attribute numbers (thorough: all 65 536)",
@@ -379,5 +379,5 @@ def owns(prop, ev, tag):
     if prop == "C18":
         return e in ("cursor", "vecwriter")
     if prop == "C20":
-        return e == "render" or (e == "decode" and "fault" in ev)
+        return e in ("render", "fault_sweep") or (e == "decode" and "fault" in ev)
     return False
